@@ -405,6 +405,10 @@ def contains(ctx, container, item):
         if not cs:
             return False
         return simp(z3.Or(*cs)) if len(cs) > 1 else simp(cs[0])
+    if isinstance(container, OpaqueVal) and container.tag == 'val' and (is_str(item) or isinstance(item, Choice)):
+        from .seq import v_has, Val
+        if container.term.sort() == Val:
+            return simp(v_has(container.term, str_term(item)))
     if isinstance(container, OpaqueVal) and container.tag == 'dictlike':
         return simp(ufun('has_key', container.term.sort(), PyStr, z3.BoolSort())(container.term, str_term(item)))
     if container is None:
